@@ -1164,8 +1164,8 @@ fn tick_peer<I: HInp, P: InputPredictor<I> + 'static>(
             // ---- C15 sampling
             if opts.sample_stats {
                 let fa = s.frames_ahead();
-                if d == 1 && cur % 10 == 0 {
-                    pe.out.fa_samples.push((cur, fa));
+                if tick % 10 == 0 {
+                    pe.out.fa_samples.push((tick as i32, fa));
                 }
                 if tick % 10 == 0 {
                     if let Some(h) = (0..nplayers).find(|h| owners[*h] != p) {
@@ -1327,12 +1327,11 @@ fn misuse<I: HInp, P: InputPredictor<I> + 'static>(pe: &mut PeerRt<I, P>, kind: 
                 let cs = s.verif_connect_status();
                 let already = h < cs.len() && cs[h].0;
                 let known_remote = h < cs.len() && !is_local;
-                if known_remote && !already {
+                if (known_remote && !already) || s.spectator_handles().contains(&h) {
                     return (true, "skipped (would be a valid disconnect)".into());
                 }
                 let r = s.disconnect_player(h);
-                // spectator handles are a valid target; skip those
-                (matches!(r, Err(GgrsError::InvalidRequest { .. })) || (h >= cs.len() && r.is_ok() && s.spectator_handles().contains(&h)), format!("disconnect_player({h}) -> {r:?}"))
+                (matches!(r, Err(GgrsError::InvalidRequest { .. })), format!("disconnect_player({h}) -> {r:?}"))
             }
             4 => {
                 if is_local {
